@@ -42,7 +42,10 @@
        every cumulative length is the exact cumulative polyline length up to
        the relative error alpha n = 3.01 * 2^-24 + 2 n * 2^-53, which
        discharges A (C16_cumulative_lengths_ieee_bound,
-       C16_adjusted_length_ieee_bound_full).
+       C16_adjusted_length_ieee_bound_full; on calculate_length itself:
+       C16_calculate_length_ieee_bound).  The non-degeneracy hypothesis can be
+       read off the computed f32 length of the segment: >= 2^-9 suffices
+       (C16_ieee_hypotheses_from_f32_length).
    Still NOT proved (the property stays PARTIAL): monotonicity with a non-zero
    osu!-mode Catmull surplus (the surplus can be negative by rounding, "of the
    order of 1e-5" in the property text), and with it the accumulated error of
@@ -593,7 +596,7 @@ Print Assumptions C16_exact_cut_example.
 (* ================================================================== *)
 (* T16b-IEEE -- rounding error of the adjusted end point               *)
 (* ================================================================== *)
-From RM Require Import Proofs.AdjustIEEEBase Proofs.AdjustIEEE Proofs.AdjustIEEESum Proofs.AdjustIEEEEx.
+From RM Require Import Proofs.AdjustIEEEBase Proofs.AdjustIEEE Proofs.AdjustIEEESum Proofs.AdjustIEEELen Proofs.AdjustIEEEEx.
 Open Scope Z_scope.
 
 (* the hypotheses and the bound, spelled out.  Coordinates finite with
@@ -786,3 +789,64 @@ Example C16_accumulated_error_example :
      (Rabs (poly_len (map R2 (firstn 2 ex_path ++ [q])) - 9) <= 5.7 / 1000000)%R).
 Proof. split; [exact ex_path_hyps|exact ex_adjusted_length_full]. Qed.
 Print Assumptions C16_accumulated_error_example.
+
+(* on calculate_length itself (adjusting branch, zero seed): the new path is
+   the first k vertices plus the end point q; the kept length lp = lengths[k-1]
+   is finite, below L and within alpha n * c of the exact polyline length c of
+   the kept vertices; and when the segment the cut falls in is at least 2^-10
+   long and L - lp <= 2^20, q is finite, within E16 of the exact point, and the
+   exact polyline length of the new path is within alpha n * c + Ex + Ey of L *)
+Theorem C16_calculate_length_ieee_bound :
+  forall (path : list Pos) (L : F64) path' lens,
+  D.lt D.zero L = true ->
+  keeps_natural (natural_len path D.zero) L = false ->
+  (last_two_equal path && D.gt L (natural_len path D.zero))%bool = false ->
+  (2 <= length path)%nat ->
+  calculate_length path (Some L) D.zero = Done (path', lens) ->
+  Forall (fun p => coord_le p 20) path -> segs_ok path -> (length path <= 2 ^ 50)%nat ->
+  (poly_len (map R2 path) <= Raux.bpow Zaux.radix2 1000)%R -> is_finite L = true ->
+  exists k pp pe lp c q,
+    (1 <= k < length path)%nat /\
+    nth_error path (Nat.pred k) = Some pp /\ nth_error path k = Some pe /\
+    nth_error (natural path D.zero) (Nat.pred k) = Some lp /\
+    nth_error (cumlen (map R2 path)) (Nat.pred k) = Some c /\
+    path' = firstn k path ++ [q] /\ lens = firstn k (natural path D.zero) ++ [L] /\
+    is_finite lp = true /\ (B2R lp < B2R L)%R /\ (Rabs (c - B2R lp) <= alpha (length path) * c)%R /\
+    ((Raux.bpow Zaux.radix2 (-10) <= edist (R2 pp) (R2 pe))%R -> (B2R L - B2R lp <= Raux.bpow Zaux.radix2 20)%R ->
+     let Ex := E16 (Rabs (B2R (px pp))) (B2R L - B2R lp) in
+     let Ey := E16 (Rabs (B2R (py pp))) (B2R L - B2R lp) in
+     is_finite (px q) = true /\ is_finite (py q) = true /\
+     (Rabs (B2R (px q) - fst (adjust_R (R2 pp) (R2 pe) (B2R L) (B2R lp))) <= Ex)%R /\
+     (Rabs (B2R (py q) - snd (adjust_R (R2 pp) (R2 pe) (B2R L) (B2R lp))) <= Ey)%R /\
+     (Rabs (poly_len (map R2 path') - B2R L) <= alpha (length path) * c + Ex + Ey)%R).
+Proof. exact calculate_length_ieee_bound. Qed.
+Print Assumptions C16_calculate_length_ieee_bound.
+
+Example C16_calculate_length_ieee_example :
+  D.lt D.zero (D.of_Z 9) = true /\
+  keeps_natural (natural_len ex_path D.zero) (D.of_Z 9) = false /\
+  (last_two_equal ex_path && D.gt (D.of_Z 9) (natural_len ex_path D.zero))%bool = false /\
+  (2 <= length ex_path)%nat /\
+  (match calculate_length ex_path (Some (D.of_Z 9)) D.zero with Done (p, l) => (length p, map D.bits l) | _ => (O, []) end
+   = (3%nat, map D.bits [D.of_Z 0; D.of_Z 5; D.of_Z 9])) /\
+  is_finite (D.of_Z 9) = true.
+Proof. exact ex_calculate_length_hyps. Qed.
+
+(* the non-degeneracy hypothesis stated on the COMPUTED f32 length of the
+   segment: (path[k] - path[k-1]).length() >= 2^-9 implies an exact length
+   >= 2^-10, hence adjust_hyps (an exact length below 2^-10 gives a computed
+   length below 2^-9, underflow of the squares to zero included) *)
+Theorem C16_ieee_hypotheses_from_f32_length :
+  forall (pp pe : Pos) (e lp : F64),
+  coord_le pp 20 -> coord_le pe 20 -> is_finite e = true -> is_finite lp = true ->
+  (0 <= B2R e - B2R lp <= Raux.bpow Zaux.radix2 20)%R ->
+  (Raux.bpow Zaux.radix2 (-9) <= B2R (Curve.plen (psub pe pp)))%R ->
+  adjust_hyps pp pe e lp.
+Proof. exact adjust_hyps_of_f32_length. Qed.
+Print Assumptions C16_ieee_hypotheses_from_f32_length.
+
+Example C16_ieee_hypotheses_from_f32_length_example :
+  (Raux.bpow Zaux.radix2 (-9) <= B2R (Curve.plen (psub ex_p2 ex_p1)))%R /\
+  adjust_hyps ex_p1 ex_p2 (D.of_Z 9) (D.of_Z 5).
+Proof. split; [exact ex_f32_length|exact ex_adjust_hyps_from_f32_length]. Qed.
+Print Assumptions C16_ieee_hypotheses_from_f32_length_example.
